@@ -162,8 +162,12 @@ class Plan:
         if a step fails or if the user decides to stop the optimization.
 
         The `aborted` method can be used to check if the plan was aborted.
+
+        If the plan has a parent plan, the parent is also aborted.
         """
         self._aborted = True
+        if self._parent is not None:
+            self._parent.abort()
 
     @property
     def aborted(self) -> bool:
